@@ -144,41 +144,45 @@ macro "field_simp" "[" ls:Lean.Parser.Tactic.simpLemma,* "]" : tactic =>
 
 theorem C05_gen_always_no_input (W : Obj.World V) (o : Opts V) (f : PField V) (hl : LettersOk o f) :
     Field.always_no_input W (encField f) (encOpts o) = .ok (.bool (alwaysNoInput Legacy.none o f)) := by
-  obtain ⟨_, _, _, _, ci, required, default, deferDefault, noInput, noOutput, mode, _, onError⟩ := f
-  obtain ⟨omode, _, ir, nd, dd, fd, _, _, _, _, _, iv, _, oci⟩ := o
-  simp only [LettersOk] at hl
-  cases noInput <;> cases omode <;> cases mode <;>
-    simp only [flagLetters, reqLetters, Option.toList, Option.getD] at hl <;> field_simp [hl] <;> grind
+  gen_obligation "C05_gen_always_no_input: the regenerated code (Utv.Gen) is no longer equal to the hand model here" by
+    obtain ⟨_, _, _, _, ci, required, default, deferDefault, noInput, noOutput, mode, _, onError⟩ := f
+    obtain ⟨omode, _, ir, nd, dd, fd, _, _, _, _, _, iv, _, oci⟩ := o
+    simp only [LettersOk] at hl
+    cases noInput <;> cases omode <;> cases mode <;>
+      simp only [flagLetters, reqLetters, Option.toList, Option.getD] at hl <;> field_simp [hl] <;> grind
 
 theorem C05_gen_is_required (W : Obj.World V) (o : Opts V) (f : PField V) (hl : LettersOk o f) :
     Field.is_required W (encField f) (encOpts o) = .ok (.bool (isRequired Legacy.none o f)) := by
-  rw [Field.is_required, C05_gen_always_no_input W o f hl]
-  unfold isRequired
-  generalize alwaysNoInput Legacy.none o f = ani
-  obtain ⟨_, _, _, _, ci, required, default, deferDefault, noInput, noOutput, mode, _, onError⟩ := f
-  obtain ⟨omode, _, ir, nd, dd, fd, _, _, _, _, _, iv, _, oci⟩ := o
-  simp only [LettersOk] at hl
-  cases ir <;> cases required <;> cases omode <;> cases ani <;>
-    simp only [flagLetters, reqLetters, Option.toList, Option.getD] at hl <;> field_simp [hl] <;> grind
+  gen_obligation "C05_gen_is_required: the regenerated code (Utv.Gen) is no longer equal to the hand model here" by
+    rw [Field.is_required, C05_gen_always_no_input W o f hl]
+    unfold isRequired
+    generalize alwaysNoInput Legacy.none o f = ani
+    obtain ⟨_, _, _, _, ci, required, default, deferDefault, noInput, noOutput, mode, _, onError⟩ := f
+    obtain ⟨omode, _, ir, nd, dd, fd, _, _, _, _, _, iv, _, oci⟩ := o
+    simp only [LettersOk] at hl
+    cases ir <;> cases required <;> cases omode <;> cases ani <;>
+      simp only [flagLetters, reqLetters, Option.toList, Option.getD] at hl <;> field_simp [hl] <;> grind
 
 /-- run-time `is_no_input(value, options)`, a callable `no_input` included -/
 theorem C05_gen_is_no_input (W : Obj.World V) (W5 : C05.World V) (hw : WorldOk W W5) (o : Opts V) (f : PField V)
     (v : V) (hl : LettersOk o f) :
     Field.is_no_input W (encField f) (.val v) (encOpts o) = .ok (.bool (isNoInput Legacy.none W5 o f v)) := by
-  obtain ⟨_, _, _, _, ci, required, default, deferDefault, noInput, noOutput, mode, _, onError⟩ := f
-  obtain ⟨omode, _, ir, nd, dd, fd, _, _, _, _, _, iv, _, oci⟩ := o
-  simp only [LettersOk] at hl
-  cases noInput <;> cases omode <;> cases mode <;>
-    simp only [flagLetters, reqLetters, Option.toList, Option.getD] at hl <;> field_simp [hl, hw _ _] <;> grind
+  gen_obligation "C05_gen_is_no_input: the regenerated code (Utv.Gen) is no longer equal to the hand model here" by
+    obtain ⟨_, _, _, _, ci, required, default, deferDefault, noInput, noOutput, mode, _, onError⟩ := f
+    obtain ⟨omode, _, ir, nd, dd, fd, _, _, _, _, _, iv, _, oci⟩ := o
+    simp only [LettersOk] at hl
+    cases noInput <;> cases omode <;> cases mode <;>
+      simp only [flagLetters, reqLetters, Option.toList, Option.getD] at hl <;> field_simp [hl, hw _ _] <;> grind
 
 theorem C05_gen_is_no_output (W : Obj.World V) (W5 : C05.World V) (hw : WorldOk W W5) (o : Opts V) (f : PField V)
     (v : V) (hl : LettersOk o f) :
     Field.is_no_output W (encField f) (.val v) (encOpts o) = .ok (.bool (isNoOutput Legacy.none W5 o f v)) := by
-  obtain ⟨_, _, _, _, ci, required, default, deferDefault, noInput, noOutput, mode, _, onError⟩ := f
-  obtain ⟨omode, _, ir, nd, dd, fd, _, _, _, _, _, iv, _, oci⟩ := o
-  simp only [LettersOk] at hl
-  cases noOutput <;> cases omode <;> cases mode <;>
-    simp only [flagLetters, reqLetters, Option.toList, Option.getD] at hl <;> field_simp [hl, hw _ _] <;> grind
+  gen_obligation "C05_gen_is_no_output: the regenerated code (Utv.Gen) is no longer equal to the hand model here" by
+    obtain ⟨_, _, _, _, ci, required, default, deferDefault, noInput, noOutput, mode, _, onError⟩ := f
+    obtain ⟨omode, _, ir, nd, dd, fd, _, _, _, _, _, iv, _, oci⟩ := o
+    simp only [LettersOk] at hl
+    cases noOutput <;> cases omode <;> cases mode <;>
+      simp only [flagLetters, reqLetters, Option.toList, Option.getD] at hl <;> field_simp [hl, hw _ _] <;> grind
 
 /-- `get_default(options, defer)`: which value is handed to `copy_value` (the copy itself is C19's business), or
 `unprovided` -/
@@ -187,23 +191,26 @@ theorem C05_gen_get_default (W : Obj.World V) (o : Opts V) (f : PField V) (defer
       match getDefault o f defer with
       | some d => W.ext "copy_value" [.val d]
       | none => .ok .unprovided := by
-  obtain ⟨_, _, _, _, ci, required, default, deferDefault, noInput, noOutput, mode, _, onError⟩ := f
-  obtain ⟨omode, _, ir, nd, dd, fd, _, _, _, _, _, iv, _, oci⟩ := o
-  cases defer <;> cases nd <;> cases dd <;> cases deferDefault <;> cases fd <;> cases default <;> field_simp []
+  gen_obligation "C05_gen_get_default: the regenerated code (Utv.Gen) is no longer equal to the hand model here" by
+    obtain ⟨_, _, _, _, ci, required, default, deferDefault, noInput, noOutput, mode, _, onError⟩ := f
+    obtain ⟨omode, _, ir, nd, dd, fd, _, _, _, _, _, iv, _, oci⟩ := o
+    cases defer <;> cases nd <;> cases dd <;> cases deferDefault <;> cases fd <;> cases default <;> field_simp []
 
 theorem C05_gen_get_on_error (W : Obj.World V) (o : Opts V) (f : PField V) :
     Field.get_on_error W (encField f) (encOpts o) = .ok (encOnErr (getOnError o f)) := by
-  obtain ⟨_, _, _, _, ci, required, default, deferDefault, noInput, noOutput, mode, _, onError⟩ := f
-  obtain ⟨omode, _, ir, nd, dd, fd, _, _, _, _, _, iv, _, oci⟩ := o
-  cases onError with
-  | none => field_simp []
-  | some e => cases e <;> field_simp []
+  gen_obligation "C05_gen_get_on_error: the regenerated code (Utv.Gen) is no longer equal to the hand model here" by
+    obtain ⟨_, _, _, _, ci, required, default, deferDefault, noInput, noOutput, mode, _, onError⟩ := f
+    obtain ⟨omode, _, ir, nd, dd, fd, _, _, _, _, _, iv, _, oci⟩ := o
+    cases onError with
+    | none => field_simp []
+    | some e => cases e <;> field_simp []
 
 /-- a field that has been set up answers with the decision its declaring class took, whatever the options of the
 parse say (`PField.ci`) -/
 theorem C05_gen_is_case_insensitive (W : Obj.World V) (o : Opts V) (f : PField V) :
     Field.is_case_insensitive W (encField f) (encOpts o) = .ok (.bool f.ci) := by
-  field_simp []
+  gen_obligation "C05_gen_is_case_insensitive: the regenerated code (Utv.Gen) is no longer equal to the hand model here" by
+    field_simp []
 
 /-- … and that decision is `mkField`'s: the field's own `case_insensitive=` if given, else the declaring class's
 options (`setup`, field.py, stores what `is_case_insensitive` answers before the set-up) -/
@@ -212,7 +219,8 @@ theorem C05_gen_is_case_insensitive_setup (W : Obj.World V) (W5 : C05.World V) (
       (.obj "ParserField" [("setup_case_insensitive", .none),
         ("case_insensitive", match d.ci with | none => .none | some b => .bool b)]) (encOpts o)
       = .ok (.bool (mkField W5 o d).ci) := by
-  cases h : d.ci <;> field_simp [mkField, h]
+  gen_obligation "C05_gen_is_case_insensitive_setup: the regenerated code (Utv.Gen) is no longer equal to the hand model here" by
+    cases h : d.ci <;> field_simp [mkField, h]
 
 /-! ### `Options.__init__` normalisation (`Opts.normalise`) -/
 
@@ -239,15 +247,16 @@ def field (r : M V (OVal V)) (name : String) : M V (OVal V) := r >>= fun x => ge
 theorem C05_gen_options_init_conflict (W : Obj.World V) (self : OVal V) (o : Opts V)
     (h : o.forceDefault.isSome = true ∧ o.noDefault = true) :
     Options.Options_init W self (encKw o) = .error (.raised (.obj "ConfigError" [])) := by
-  obtain ⟨omode, _, ir, nd, dd, fd, _, ce, me, _, _, iv, _, oci⟩ := o
-  simp only at h
-  obtain ⟨h1, h2⟩ := h
-  subst h2
-  cases fd with
-  | none => simp at h1
-  | some d =>
-    obj_simp [Options.Options_init, Options.multi, encKw, lookupAttr, truthy, isinstance, callable,
-      OVal.isUnprovided, OVal.isNone, encOptVal]
+  gen_obligation "C05_gen_options_init_conflict: the regenerated code (Utv.Gen) is no longer equal to the hand model here" by
+    obtain ⟨omode, _, ir, nd, dd, fd, _, ce, me, _, _, iv, _, oci⟩ := o
+    simp only at h
+    obtain ⟨h1, h2⟩ := h
+    subst h2
+    cases fd with
+    | none => simp at h1
+    | some d =>
+      obj_simp [Options.Options_init, Options.multi, encKw, lookupAttr, truthy, isinstance, callable,
+        OVal.isUnprovided, OVal.isNone, encOptVal]
 
 /-- otherwise the stored options are those of `Opts.normalise`: force_default implies ignore_required; max_errors is
 dropped without collect_errors (**except `max_errors=0`, which Python keeps — `if max_errors:` — and which has no
@@ -264,35 +273,36 @@ theorem C05_gen_options_init (W : Obj.World V) (self : OVal V) (o : Opts V)
     field r "invalid_values" = .ok (encOnErr o.normalise.invalidValues) ∧
     field r "case_insensitive" = .ok (.bool o.normalise.caseInsensitive) ∧
     field r "mode" = .ok (match o.normalise.mode with | none => .none | some m => .str (String.singleton (ltr m))) := by
-  obtain ⟨omode, ad, ir, nd, dd, fd, iac, ce, me, mxp, mnp, iv, dfs, oci⟩ := o
-  simp only [not_and, Bool.not_eq_true] at h
-  have key : Options.Options_init W self (encKw ⟨omode, ad, ir, nd, dd, fd, iac, ce, me, mxp, mnp, iv, dfs, oci⟩) =
-      .ok (.obj "locals" [("mode", match omode with | none => .none | some m => .str (String.singleton (ltr m))),
-        ("override", .unprovided), ("immutable", .unprovided), ("collect_errors", .bool ce),
-        ("max_errors", encOptNat (if me = some 0 then some 0 else if ce then me else none)),
-        ("max_depth", .unprovided), ("max_params", .unprovided), ("min_params", .unprovided),
-        ("transformer_cls", .unprovided), ("no_explicit_cast", .unprovided), ("no_data_loss", .unprovided),
-        ("addition", .unprovided), ("invalid_items", .unprovided), ("invalid_keys", .unprovided),
-        ("invalid_values", encOnErr iv), ("unresolved_types", .unprovided), ("secret_names", .unprovided),
-        ("force_default", encOptVal fd), ("no_default", .bool nd), ("defer_default", .bool dd),
-        ("ignore_required", .bool (ir || fd.isSome)), ("ignore_delete_nonexistent", .unprovided),
-        ("ignore_constraints", .unprovided), ("alias_from_generator", .unprovided), ("alias_generator", .unprovided),
-        ("ignore_alias_conflicts", .unprovided), ("allow_subclasses", .unprovided), ("cast_keyword_str", .unprovided),
-        ("case_insensitive", .bool oci), ("data_first_search", .unprovided)]) := by
-    cases fd with
-    | none =>
-      cases ce <;> cases me <;>
-        obj_simp [Options.Options_init, Options.multi, encKw, lookupAttr, truthy, isinstance, callable,
-          OVal.isUnprovided, OVal.isNone, encOptVal, encOptNat]
-      all_goals (try grind)
-    | some d =>
-      have hnd : nd = false := by simpa using h
-      subst hnd
-      cases ce <;> cases me <;>
-        obj_simp [Options.Options_init, Options.multi, encKw, lookupAttr, truthy, isinstance, callable,
-          OVal.isUnprovided, OVal.isNone, encOptVal, encOptNat]
-      all_goals (try grind)
-  simp only [key, field, Opts.normalise]
-  obj_simp [getattr, lookupAttr]
+  gen_obligation "C05_gen_options_init: the regenerated code (Utv.Gen) is no longer equal to the hand model here" by
+    obtain ⟨omode, ad, ir, nd, dd, fd, iac, ce, me, mxp, mnp, iv, dfs, oci⟩ := o
+    simp only [not_and, Bool.not_eq_true] at h
+    have key : Options.Options_init W self (encKw ⟨omode, ad, ir, nd, dd, fd, iac, ce, me, mxp, mnp, iv, dfs, oci⟩) =
+        .ok (.obj "locals" [("mode", match omode with | none => .none | some m => .str (String.singleton (ltr m))),
+          ("override", .unprovided), ("immutable", .unprovided), ("collect_errors", .bool ce),
+          ("max_errors", encOptNat (if me = some 0 then some 0 else if ce then me else none)),
+          ("max_depth", .unprovided), ("max_params", .unprovided), ("min_params", .unprovided),
+          ("transformer_cls", .unprovided), ("no_explicit_cast", .unprovided), ("no_data_loss", .unprovided),
+          ("addition", .unprovided), ("invalid_items", .unprovided), ("invalid_keys", .unprovided),
+          ("invalid_values", encOnErr iv), ("unresolved_types", .unprovided), ("secret_names", .unprovided),
+          ("force_default", encOptVal fd), ("no_default", .bool nd), ("defer_default", .bool dd),
+          ("ignore_required", .bool (ir || fd.isSome)), ("ignore_delete_nonexistent", .unprovided),
+          ("ignore_constraints", .unprovided), ("alias_from_generator", .unprovided), ("alias_generator", .unprovided),
+          ("ignore_alias_conflicts", .unprovided), ("allow_subclasses", .unprovided), ("cast_keyword_str", .unprovided),
+          ("case_insensitive", .bool oci), ("data_first_search", .unprovided)]) := by
+      cases fd with
+      | none =>
+        cases ce <;> cases me <;>
+          obj_simp [Options.Options_init, Options.multi, encKw, lookupAttr, truthy, isinstance, callable,
+            OVal.isUnprovided, OVal.isNone, encOptVal, encOptNat]
+        all_goals (try grind)
+      | some d =>
+        have hnd : nd = false := by simpa using h
+        subst hnd
+        cases ce <;> cases me <;>
+          obj_simp [Options.Options_init, Options.multi, encKw, lookupAttr, truthy, isinstance, callable,
+            OVal.isUnprovided, OVal.isNone, encOptVal, encOptNat]
+        all_goals (try grind)
+    simp only [key, field, Opts.normalise]
+    obj_simp [getattr, lookupAttr]
 
 end Utv.GenEq.C05
